@@ -72,7 +72,7 @@ _hist_prop("C18", ["CC.Props.C18", "CC.Props.NonVacuity"],
 
 PROPS["C12"] = {
     "modules": ["CC.Props.C12"], "campaigns": [hist("C12", BOTH), hist("C12h", ONE), {"name": "golden", "configs": ONE}], "quick_configs": ONE, "tables": {"labels": "supporting"},
-    "level_text": "Lean theorems over the KEM-DEM composition with an idealised AEAD: PKE and header round trips for every plaintext / metadata / authentication data, unauthorised => none, tampered or truncated or re-keyed ciphertext => error, AD mismatch => error when metadata is present (partial; the full statement is disproved by a witness: known finding D12), labels read from the source pairwise distinct. Correspondence + specification oracle: every plaintext length 0..70 and around 4/8 KiB, metadata x AD matrix, truncation at every length, bit flips, splices; each line compared with the model and with what the specification demands; and inside histories (campaign C12h): ciphertexts and headers made under any published key, with absent / empty / non-empty metadata and authentication data, opened by every key after rotations, refreshes, edits and store / load, compared with the model",
+    "level_text": "Lean theorems over the KEM-DEM composition with an idealised AEAD: PKE and header round trips for every plaintext / metadata / authentication data, unauthorised => none, tampered or truncated or re-keyed ciphertext => error, AD mismatch => error when metadata is present (partial; the full statement is disproved by a witness: known finding D12), labels read from the source pairwise distinct; end to end over every history (with the reachable-world theorems of C01 / C02): in any world reachable from setup, a key just generated opens a ciphertext / header just made under the current public key to the exact plaintext / metadata and the very secret generation returned when its policy covers the encryption policy, and gets `not authorized` otherwise (pke_authorized_reachable, pke_unauthorized_reachable, header_authorized_reachable, header_unauthorized_reachable). Correspondence + specification oracle: every plaintext length 0..70 and around 4/8 KiB, metadata x AD matrix, truncation at every length, bit flips, splices; each line compared with the model and with what the specification demands; and inside histories (campaign C12h): ciphertexts and headers made under any published key, with absent / empty / non-empty metadata and authentication data, opened by every key after rotations, refreshes, edits and store / load, compared with the model",
     "level_note": "AES-256-GCM idealised (opens only what was sealed with the same key, nonce, AD; any alteration is detected); SymmetricKey::derive / kdf256 idealised as injective in (seed, label)",
 }
 
